@@ -365,7 +365,9 @@ def _run_sharded(exe, lines, tag, timeout):
         outp = os.path.join(BUILD, "tmp", f"{tag}.{os.getpid()}.{i}.out")
         with open(inp, "w") as f:
             f.write("\n".join(chunk) + "\n")
-        p = subprocess.Popen([exe, inp, outp], stdout=subprocess.PIPE, stderr=subprocess.STDOUT, env=ENV)
+        # unlimited stack: the extracted model recurses over lists with millions of elements for the largest plans
+        p = subprocess.Popen(["sh", "-c", 'ulimit -s unlimited 2>/dev/null; exec "$0" "$@"', exe, inp, outp],
+                             stdout=subprocess.PIPE, stderr=subprocess.STDOUT, env=ENV)
         procs.append((p, inp, outp, len(chunk)))
     results = []
     deadline = time.time() + timeout
